@@ -356,10 +356,12 @@ def units(w):
         return post
     for kind, whats in (("map", (None, "keys", "values", "entries")), ("object", (None, "keys", "values", "entries")), ("string", (None,))):
         for what in whats:
-            for n in (0, 1, 2, 3):
-                U.append(Unit("nodes.py::NodeFor.evaluate", s_for_small(kind, n, what), p_for_small(kind, n, what),
-                              name=f"nodes.py::NodeFor.evaluate[{kind}, {what or 'default'}, {n} entries]", prepare=K.install, replay=replay_prog,
-                              bounded="containers of <= 3 entries"))
+            for n in (0, 1, 2, 3, 4, 5):
+                u = Unit("nodes.py::NodeFor.evaluate", s_for_small(kind, n, what), p_for_small(kind, n, what),
+                         name=f"nodes.py::NodeFor.evaluate[{kind}, {what or 'default'}, {n} entries]", prepare=K.install, replay=replay_prog,
+                         bounded="containers of <= 3 entries (<= 5 in the thorough tier)")
+                u.thorough_only = n > 3
+                U.append(u)
 
     # ================================================================== function call: unwrap return, reject stray break/continue
     def s_lambda(it):
